@@ -501,6 +501,8 @@ func (c *FnCtx) splitModel(st *State, s, sep *Term, depth int) *Term {
 	nonEmptySep := ts.Not(ts.Eq(sep, ts.Str("")))
 	has := ts.App("str.contains", SBool, s, sep)
 	c.addFactT(st, r, ts.Implies(ts.And(nonEmptySep, ts.Not(has)), ts.Eq(r, ts.Unit(s))))
+	c.addFactT(st, r, ts.Implies(ts.And(nonEmptySep, has), ts.Ge(ts.Len(r), ts.Int(2))))
+	c.addFactT(st, r, ts.Implies(ts.And(nonEmptySep, ts.Eq(ts.Len(r), ts.Int(1))), ts.Eq(r, ts.Unit(s))))
 	if depth > 0 {
 		idx := ts.App("str.indexof", SInt, s, sep, ts.Int(0))
 		head := ts.Extract(s, ts.Int(0), idx)
@@ -573,7 +575,22 @@ func (c *FnCtx) modelMore(fr *Frame, st *State, x *ssa.Call, name string, args [
 		for i := 0; i < rs.Len(); i++ {
 			out = append(out, ts.UF(fmt.Sprintf("%s!%d", name, i), c.eng.tc.SortOf(rs.At(i).Type()), args...))
 		}
+		if name == "reflect.TypeOf" {
+			// TypeOf(x) is nil exactly for a nil interface value
+			c.addFactT(st, out[0], ts.Eq(c.eng.tc.IsNilVal(out[0]), c.eng.tc.IsNilVal(args[0])))
+			c.addFactT(st, out[0], ts.Or(c.eng.tc.IsNilVal(out[0]), ts.App("(_ is VBox)", SBool, out[0])))
+		}
 		return out
+	case "os.Stat", "os.Open", "os.Create", "os.OpenFile":
+		use(name + ": returns a non-nil object exactly when err == nil")
+		res := c.freshResults(st, cc, "os")
+		isNil := c.eng.tc.IsNilVal(res[1])
+		if res[0].sort == SVal {
+			c.addFact(st, ts.Eq(isNil, ts.Not(c.eng.tc.IsNilVal(res[0]))))
+		} else {
+			c.addFact(st, ts.Eq(isNil, ts.Not(ts.Eq(res[0], ts.Int(0)))))
+		}
+		return res
 	}
 	// generic: deterministic? no — arbitrary results
 	use(name + ": unmodelled — results arbitrary; memory behind pointer arguments havocked")
